@@ -21,7 +21,11 @@ Inductive tnode :=
 | NBreak
 | NContinue
 | NBreakIf (e : sexpr)
-| NContinueIf (e : sexpr).
+| NContinueIf (e : sexpr)
+(* C06: a layout's @reserve(name) together with what the page inserts for it - the body of a block
+   insert, or the expression of the short form, or nothing (rid is the parser's label of the
+   statement, without meaning for the render) *)
+| NReserve (name : bytes) (rid : nat) (blk : option (list tnode)) (arg : option sexpr).
 
 Inductive signal := SigNormal | SigBreak | SigContinue.
 
@@ -185,6 +189,18 @@ with run_node (fuel : nat) (sc : scopes) (n : tnode) {struct fuel} : tres :=
       | SErr => TFail
       | SUnspec => TUnprintable
       end
+    (* the reserve is replaced by the insert's content, rendered where the reserve stands (in the
+       scope of that place; a loop-control signal of the body ends the body and goes no further);
+       by the value of the expression form; by nothing when the page inserts nothing *)
+    | NReserve _ _ (Some b) _ =>
+      match run_nodes f sc b with TOk o _ sc1 => TOk o SigNormal sc1 | r => r end
+    | NReserve _ _ None (Some e) =>
+      match ev sc e with
+      | SVal v => match value_string v with Some s => TOk s SigNormal sc | None => TUnprintable end
+      | SErr => TFail
+      | SUnspec => TUnprintable
+      end
+    | NReserve _ _ None None => TOk [] SigNormal sc
     end
   end
 
@@ -297,6 +313,7 @@ Fixpoint print_nodes (fuel : nat) (ns : list tnode) {struct fuel} : bytes :=
       | NContinue => bs "@continue"
       | NBreakIf e => bs "@breakIf(" ++ code e ++ bs ")"
       | NContinueIf e => bs "@continueIf(" ++ code e ++ bs ")"
+      | NReserve n _ _ _ => bs "@reserve(" ++ [34] ++ n ++ [34] ++ bs ")"
       end) ns)
   end.
 
